@@ -1,40 +1,65 @@
 import CallbagModel.Core
 /-!
-# A wider environment for the differential layer: cross-sink calls (multi-sink operators, i.e. `share`)
+# A wider environment for the differential layer: cross-peer calls
 
-`legalIn` (Core.lean) lets sink `k` use its talkback at top level and inside deliveries TO SINK `k`.  The sinks of a shared source are
-parts of one program, though: `merge!(s, s)` over `s = share(src)` disposes its second subscription from inside the handler of the
-first.  `legalInX` adds exactly that: while the operator is delivering (greeting, data or a terminal message) to ANY of its sinks, any
-sink that is live may pull or dispose.  It is used by the script generators, the model replay and the monitor that judges recorded
-traces (`Script.lean`, `Mon.lean`), so that the crate and the model are COMPARED on such histories; the theorems of `Thm/` quantify
-over `legalIn` environments (`SReach`), a subclass — see DESIGN §9.9 and known finding KF5c.
+`legalIn` (Core.lean) ties every peer to its own handlers: sink `k` uses its talkback at top level and inside deliveries TO SINK `k`;
+source `i` delivers at top level, inside the call that subscribes it and inside a Pull sent to it (S2, K1 of DESIGN §1.2 — the reading
+the property texts give).  The callbag specification itself does not say WHEN a peer may act, and in a real program the peers are
+parts of one program: `merge!(s, s)` over `s = share(src)` disposes its second subscription from inside the handler of the first; a
+subject is fed from inside the data handler of the sink it eventually reaches; a sink told that the source has ended subscribes a new
+sink to the same shared source.  `legalInX` keeps the PHASE conditions of `legalIn` and drops the context conditions: any peer whose
+protocol state allows it may act whenever the environment has control.  It is used by the `genx`/`randx` script generators, by every
+model replay and by the monitor that judges recorded traces (`Script.lean`, `Mon.lean`), so that the crate and the model are COMPARED
+on such histories and the monitor judges them; the theorems of `Thm/` quantify over `legalIn` environments (`SReach`), a subclass — see
+DESIGN §9.9 and the known findings of class `cross-peer`.
 -/
 namespace Cb
+
+/-- the phase conditions of `legalIn`, in any context in which the environment has control -/
+def crossPeer {α β} (sh : Shape) (g : Ph) (_c : Ctx β) : In α → Bool
+  | .subscribe k => g.sinkPh k == .idle && (k == 0 || sh.multiSink)
+  | .sinkUp k _ => g.sinkPh k == .live
+  | .srcGreet i => g.srcPh i == .subscribed && sh.lateGreet
+  | .srcDown i _ => g.srcPh i == .live
 
 def inDelivery {β} : Ctx β → Bool
   | .inCall (.greet _) => true
   | .inCall (.down _ _) => true
   | _ => false
 
-/-- the cross-sink part: only for multi-sink operators, only talkback calls of a live sink, only while a delivery is open -/
+/-- the cross-SINK part: a multi-sink operator (`share`) is delivering to one of its sinks and another live sink pulls or disposes.
+Histories whose only cross-peer calls are of this kind are also JUDGED by the monitor (known findings KF5c, KF5d); the other
+cross-peer histories are used for the model-versus-crate comparison only (DESIGN §9.9). -/
 def crossSink {α β} (sh : Shape) (g : Ph) (c : Ctx β) : In α → Bool
   | .sinkUp k _ => sh.multiSink && g.sinkPh k == .live && inDelivery c
   | _ => false
 
-def legalInX {α β} (sh : Shape) (g : Ph) (c : Ctx β) (i : In α) : Bool := legalIn sh g c i || crossSink sh g c i
+def legalInX {α β} (sh : Shape) (g : Ph) (c : Ctx β) (i : In α) : Bool := legalIn sh g c i || crossPeer sh g c i
 
-/-- is this call legal ONLY by the cross-sink clause? (used to classify histories) -/
-def isCross {α β} (sh : Shape) (g : Ph) (c : Ctx β) (i : In α) : Bool := !legalIn sh g c i && crossSink sh g c i
+/-- is this call legal ONLY in the wider environment? (used to classify histories) -/
+def isCross {α β} (sh : Shape) (g : Ph) (c : Ctx β) (i : In α) : Bool := !legalIn sh g c i && crossPeer sh g c i
 
-/-- `envMove` over the wider environment; identical to `envMove` wherever that is defined -/
-def envMoveX {St Loc α β} (M : Machine St Loc α β) (s : Sys St Loc α β) : Move α → Option (Sys St Loc α β)
+/-- … and not even as a cross-sink call -/
+def isWide {α β} (sh : Shape) (g : Ph) (c : Ctx β) (i : In α) : Bool := isCross sh g c i && !crossSink sh g c i
+
+/-- `envMove` with another legality predicate for environment calls -/
+def envMoveL {St Loc α β} (leg : Shape → Ph → Ctx β → In α → Bool) (M : Machine St Loc α β) (s : Sys St Loc α β) :
+    Move α → Option (Sys St Loc α β)
   | .call i =>
     if s.panicked.isSome then none else
     match ctxOf s.stack with
-    | some c => if legalInX M.shape s.g.ph c i then
+    | some c => if leg M.shape s.g.ph c i then
         some { s with stack := .run (M.enter i) :: s.stack, g := s.g.onIn s.stack.length i, tr := .inp i :: s.tr } else none
     | none => none
   | .ret => envMove M s .ret
+
+/-- `envMove` over the cross-peer environment; identical to `envMove` wherever that is defined -/
+def envMoveX {St Loc α β} (M : Machine St Loc α β) (s : Sys St Loc α β) (m : Move α) : Option (Sys St Loc α β) :=
+  envMoveL legalInX M s m
+
+/-- … over `legalIn` plus cross-sink calls only (the judged part of the wider environment) -/
+def envMoveCS {St Loc α β} (M : Machine St Loc α β) (s : Sys St Loc α β) (m : Move α) : Option (Sys St Loc α β) :=
+  envMoveL (fun sh g c i => legalIn sh g c i || crossSink sh g c i) M s m
 
 theorem envMoveX_of_envMove {St Loc α β} (M : Machine St Loc α β) (s s' : Sys St Loc α β) (m : Move α)
     (h : envMove M s m = some s') : envMoveX M s m = some s' := by
@@ -42,7 +67,7 @@ theorem envMoveX_of_envMove {St Loc α β} (M : Machine St Loc α β) (s s' : Sy
   | ret => exact h
   | call i =>
     simp only [envMove] at h
-    simp only [envMoveX]
+    simp only [envMoveX, envMoveL]
     cases hp : s.panicked.isSome <;> simp only [hp, Bool.false_eq_true, ↓reduceIte] at h ⊢
     · cases hc : ctxOf s.stack with
       | none => simp [hc] at h
